@@ -4,6 +4,7 @@ import (
 	"io"
 	"net/http"
 	"net/http/httptest"
+	"slices"
 	"sort"
 	"strconv"
 	"strings"
@@ -321,8 +322,13 @@ func (s *Server) ServeHTTP(w http.ResponseWriter, req *http.Request) {
 		q.Answers = len(rrs)
 		rrs, q.Unordered = s.zone.Reorder(rrs)
 		var soa *NegSOA
-		if q.Rcode == 0 && len(rrs) == 0 {
-			soa = s.zone.NegSOA
+		if q.Rcode == 0 && s.zone.NegSOA != nil {
+			// negative answer (RFC 2308 section 2.2): no record of the type asked at the end of the chain; the
+			// answer section is empty or holds the CNAMEs (and whatever poison is configured)
+			genuine, _ := s.zone.Lookup(q.Name, q.Type, s.version)
+			if !slices.ContainsFunc(genuine, func(rr RR) bool { return rr.Type == q.Type }) {
+				soa = s.zone.NegSOA
+			}
 		}
 		if resp, err = Build(id, &pq, q.Rcode, rrs, s.zone.Compress, soa); err != nil {
 			// unencodable zone data: a fixture bug, visible to the client as SERVFAIL
